@@ -137,9 +137,11 @@ theorem assertAppliesLayer_err_of_inconsistent (mt : Str → Str → Bool) (g : 
     · split
       · exact ⟨_, rfl⟩
       · split
-        · rename_i d ss os _ hs ho
-          rw [hs, ho] at hc
-          exact matchLayerRule_err_of_inconsistent mt g larch _ d ss os hc
         · exact ⟨_, rfl⟩
+        · split
+          · rename_i d ss os _ hs ho
+            rw [hs, ho] at hc
+            exact matchLayerRule_err_of_inconsistent mt g larch _ d ss os hc
+          · exact ⟨_, rfl⟩
 
 end Pta
